@@ -139,6 +139,9 @@ var externals = map[string]*extFn{
 	// method of an opaque foreign value: the receiver is the first argument
 	"Signature.Verify": {"ext_Verify", "Signature → List UInt8 → PublicKey → Bool", tBool},
 	"time.now":         {"ext_now", "Int", tInt},
+	"hex.DecodeString":   {"ext_hexDecode", "String → List UInt8 × Option String", &gty{k: "tuple", items: []*gty{{k: "slice", elem: tU8}, tError}}},
+	"hex.EncodeToString": {"ext_hexEncode", "List UInt8 → String", tString},
+	"sha256.bytes":       {"ext_sha256b", "List UInt8 → List UInt8", &gty{k: "slice", elem: tU8}},
 	"sha256.string":    {"ext_sha256", "String → List UInt8", &gty{k: "slice", elem: tU8}},
 }
 
@@ -451,7 +454,7 @@ func (c *fctx) expr(s *scope, e ast.Expr, hint *gty) (string, *gty) {
 				}
 			}
 			if hint != nil && hint.k == "error" {
-				return "(some \"" + id.Name + "." + x.Sel.Name + "\")", tError
+				return "(some \"" + x.Sel.Name + "\")", tError // an error value is identified by its NAME, whichever package spells it
 			}
 			trFail("unknown qualified identifier %s.%s", id.Name, x.Sel.Name)
 		}
@@ -747,7 +750,11 @@ func (c *fctx) call(s *scope, x *ast.CallExpr, hint *gty) (string, *gty) {
 				return "(" + c.useExt("sha256.string").param + " " + a + ")", &gty{k: "slice", elem: tU8}
 			}
 		}
-		trFail("sha256.Sum256 of something that is not []byte(string)")
+		a, at := c.expr(s, x.Args[0], nil)
+		if at.k == "slice" && at.elem.k == "u8" {
+			return "(" + c.useExt("sha256.bytes").param + " " + a + ")", &gty{k: "slice", elem: tU8}
+		}
+		trFail("sha256.Sum256 of something that is neither []byte(string) nor a byte slice")
 	}
 	if sel, ok := x.Fun.(*ast.SelectorExpr); ok {
 		if id, ok := sel.X.(*ast.Ident); ok && s.lookup(id.Name) == nil {
@@ -790,6 +797,9 @@ func (c *fctx) call(s *scope, x *ast.CallExpr, hint *gty) (string, *gty) {
 		switch id.Name {
 		case "len":
 			a, at := c.expr(s, x.Args[0], nil)
+			if at.k == "string" {
+				return "(Int.ofNat (String.utf8ByteSize " + a + "))", tInt // len of a string counts BYTES
+			}
 			if at.k != "slice" && at.k != "map" {
 				trFail("len of %s", at.k)
 			}
